@@ -31,6 +31,9 @@ pub trait Est: Clone + Send + Sync {
     fn snap(&self) -> Snapshot;
     fn to_json(&self) -> Result<String, String>;
     fn from_json(s: &str) -> Result<Self, String>;
+    /// second lossless format: the serde_json::Value tree (f64 stored exactly, no text)
+    fn to_value(&self) -> Result<serde_json::Value, String>;
+    fn from_value(v: serde_json::Value) -> Result<Self, String>;
     fn collect_val(v: &[(f64, f64)]) -> Self;
     fn collect_ref(v: &[(f64, f64)]) -> Self;
     fn extend_val_(&mut self, v: &[(f64, f64)]);
@@ -72,6 +75,12 @@ macro_rules! est_uni {
             }
             fn from_json(s: &str) -> Result<Self, String> {
                 serde_json::from_str(s).map_err(|e| e.to_string())
+            }
+            fn to_value(&self) -> Result<serde_json::Value, String> {
+                serde_json::to_value(self).map_err(|e| e.to_string())
+            }
+            fn from_value(v: serde_json::Value) -> Result<Self, String> {
+                serde_json::from_value(v).map_err(|e| e.to_string())
             }
             fn collect_val(v: &[(f64, f64)]) -> Self {
                 v.iter().map(|p| p.0).collect()
@@ -138,6 +147,12 @@ macro_rules! est_pair {
             fn from_json(s: &str) -> Result<Self, String> {
                 serde_json::from_str(s).map_err(|e| e.to_string())
             }
+            fn to_value(&self) -> Result<serde_json::Value, String> {
+                serde_json::to_value(self).map_err(|e| e.to_string())
+            }
+            fn from_value(v: serde_json::Value) -> Result<Self, String> {
+                serde_json::from_value(v).map_err(|e| e.to_string())
+            }
             fn collect_val(v: &[(f64, f64)]) -> Self {
                 v.iter().copied().collect()
             }
@@ -192,6 +207,12 @@ macro_rules! est_quantile {
             }
             fn from_json(s: &str) -> Result<Self, String> {
                 serde_json::from_str(s).map($W).map_err(|e| e.to_string())
+            }
+            fn to_value(&self) -> Result<serde_json::Value, String> {
+                serde_json::to_value(&self.0).map_err(|e| e.to_string())
+            }
+            fn from_value(v: serde_json::Value) -> Result<Self, String> {
+                serde_json::from_value(v).map($W).map_err(|e| e.to_string())
             }
             fn collect_val(_: &[(f64, f64)]) -> Self {
                 Self::new_()
@@ -266,6 +287,13 @@ macro_rules! est_hist {
             }
             fn from_json(s: &str) -> Result<Self, String> {
                 <$H as Hist>::from_json(s).unwrap_or(Err("no serde".into())).map(HW)
+            }
+            fn to_value(&self) -> Result<serde_json::Value, String> {
+                let s = Hist::to_json(&self.0).ok_or_else(|| "no serde".to_string())?;
+                serde_json::from_str(&s).map_err(|e| e.to_string())
+            }
+            fn from_value(v: serde_json::Value) -> Result<Self, String> {
+                Self::from_json(&v.to_string())
             }
             fn collect_val(_: &[(f64, f64)]) -> Self {
                 Self::new_()
